@@ -22,6 +22,35 @@ type c06Case struct {
 	Chunks []int `json:"chunks"` // nil = DATA; else BDAT chunk sizes (sum = Len), LAST on the final one
 	Reads  []int `json:"reads,omitempty"`
 	Mode   int   `json:"mode"` // 0 SMTP, 1 LMTP plain, 2 LMTP per-recipient
+	// Lines (optional): the message is the concatenation of these line
+	// patterns (indexes into c06Lines) instead of the seed-selected rotation;
+	// Len is then the resulting length.
+	Lines []int `json:"lines,omitempty"`
+	// Prior > 0: a chunked transaction of Prior octets (<= N) on the same
+	// connection first, completed ("last") or abandoned ("rset").
+	Prior     int    `json:"prior,omitempty"`
+	PriorEnds string `json:"prior_ends,omitempty"`
+}
+
+// line patterns for generated content: ordinary lines, dot lines, and the
+// end-marker look-alikes that may follow the point where the budget runs out
+var c06Lines = []string{"x\r\n", ".a\r\n", "..\r\n", ".\rb\r\n", ".\r\r\n", "\r\n", "yz.\r\n", ".\n\r\n", "....\r\n", "abcdefgh\r\n"}
+
+// c06Content returns the message the backend should see and, for DATA, the
+// octets to send after the 354 (without the end marker). In Lines mode the
+// patterns are *wire* lines: the wire form need not be what a conforming
+// dot-stuffer produces (".<CR><CR><LF>" is a legal wire line for the message
+// line "<CR><CR><LF>"), the server has to cope either way.
+func c06Content(c c06Case, data bool) (msg, wire []byte) {
+	if len(c.Lines) == 0 {
+		msg = c06Message(c.Len, c.Seed, data)
+		return msg, ref.Stuff(msg)
+	}
+	for _, i := range c.Lines {
+		wire = append(wire, c06Lines[i%len(c06Lines)]...)
+	}
+	msg, _, _ = ref.Unstuff(append(append([]byte(nil), wire...), ".\r\n"...))
+	return msg, wire
 }
 
 // c06Message builds a delivered message of exactly n octets with line-start
@@ -59,7 +88,7 @@ type c06Obs struct {
 func c06Exec(c c06Case, limit int64) (c06Obs, *Verdict) {
 	lmtp := c.Mode != 0
 	data := c.Chunks == nil
-	msg := c06Message(c.Len, c.Seed, data)
+	msg, wire := c06Content(c, data)
 	cfg := harness.Config{LMTP: lmtp, MaxMessageBytes: limit}
 	script := harness.Script{LMTPSession: c.Mode == 2,
 		DefaultData: &harness.DataPlan{Read: harness.ReadPlan{Sizes: c.Reads, Limit: -1}, Honest: true}}
@@ -70,9 +99,28 @@ func c06Exec(c c06Case, limit int64) (c06Obs, *Verdict) {
 		return c06Obs{}, &Verdict{Inconclusive: e}
 	}
 	var cv conv
+	npre := 0
+	if c.Prior > 0 {
+		// an earlier chunked transaction on the same connection; the envelope
+		// of the judged transaction is sent again afterwards
+		pm := bytes.Repeat([]byte("p"), c.Prior)
+		if c.PriorEnds == "rset" {
+			cv.cmd(fmt.Sprintf("BDAT %d", c.Prior))
+			cv.raw(pm)
+			cv.cmd("RSET")
+			npre = 2
+		} else {
+			cv.cmd(fmt.Sprintf("BDAT %d LAST", c.Prior))
+			cv.raw(pm)
+			npre = 1
+		}
+		cv.cmd("MAIL FROM:<s@x>")
+		cv.cmd("RCPT TO:<r0@x>")
+		npre += 2
+	}
 	if data {
 		cv.cmd("DATA")
-		cv.raw(ref.Stuff(msg))
+		cv.raw(wire)
 		cv.raw([]byte(".\r\n"))
 	} else {
 		off := 0
@@ -104,8 +152,35 @@ func c06Exec(c c06Case, limit int64) (c06Obs, *Verdict) {
 		v := failf("reply-syntax", "replies do not parse: %v (%s)", err, q(rest))
 		return c06Obs{}, &v
 	}
+	if c.Prior > 0 {
+		// the earlier transaction must have gone through; it is not judged here
+		if len(rs) < npre {
+			v := failf("replies", "earlier transaction not answered: %v", codes(rs))
+			return c06Obs{}, &v
+		}
+		for _, rp := range rs[:npre] {
+			if rp.Class() != 2 {
+				return c06Obs{}, &Verdict{Inconclusive: fmt.Sprintf("earlier transaction refused: %v", codes(rs))}
+			}
+		}
+		rs = rs[npre:]
+	}
 	o := c06Obs{Codes: codes(rs)}
 	evs := r.B.Events()
+	if c.Prior > 0 {
+		// drop the earlier transaction's callbacks (first Mail is the preamble's)
+		des0 := dataEvents(evs)
+		if len(des0) >= 1 {
+			cut := des0[0].Seq
+			var kept []harness.Event
+			for _, e := range evs {
+				if e.Seq > cut {
+					kept = append(kept, e)
+				}
+			}
+			evs = kept
+		}
+	}
 	for _, e := range evs {
 		if e.CB == "Mail" && e.Begin {
 			o.Mails = append(o.Mails, e.From)
@@ -129,8 +204,17 @@ func c06Exec(c c06Case, limit int64) (c06Obs, *Verdict) {
 
 func c06Run(c c06Case) Verdict {
 	data := c.Chunks == nil
-	msg := c06Message(c.Len, c.Seed, data)
+	msg, _ := c06Content(c, data)
+	if len(c.Lines) > 0 {
+		c.Len = len(msg)
+	}
 	v := Verdict{}
+	if c.Prior > 0 {
+		v.Classes = append(v.Classes, "after_earlier_chunked_transaction")
+	}
+	if len(c.Lines) > 0 {
+		v.Classes = append(v.Classes, "generated_lines")
+	}
 	d := int64(c.Len) - c.N
 	v.NonTrivial = (d >= -2 && d <= 2) || len(c.Chunks) >= 2
 	switch {
@@ -367,6 +451,42 @@ func c06Gen(t *rapid.T) c06Case {
 			rem -= n
 		}
 		c.Chunks = append(c.Chunks, rem)
+	}
+	if rapid.IntRange(0, 2).Draw(t, "genlines") == 0 {
+		// content drawn line by line; the limit is put on a line boundary so
+		// that whatever follows the budget is a fresh line (dot lines and
+		// end-marker look-alikes included)
+		c.Lines = rapid.SliceOfN(rapid.IntRange(0, len(c06Lines)-1), 1, 8).Draw(t, "lines")
+		var cum []int
+		var wire []byte
+		for _, i := range c.Lines {
+			wire = append(wire, c06Lines[i]...)
+			d, _, _ := ref.Unstuff(append(append([]byte(nil), wire...), ".\r\n"...))
+			cum = append(cum, len(d))
+		}
+		total := cum[len(cum)-1]
+		c.Len = total
+		c.N = int64(rapid.SampledFrom(cum).Draw(t, "boundary"))
+		if c.N < 1 {
+			c.N = 1
+		}
+		if rapid.IntRange(0, 3).Draw(t, "offboundary") == 0 {
+			c.N += int64(rapid.IntRange(-1, 1).Draw(t, "delta"))
+			if c.N < 1 {
+				c.N = 1
+			}
+		}
+		if c.Chunks != nil {
+			c.Chunks = []int{total}
+			if total >= 2 && rapid.Bool().Draw(t, "two") {
+				k := rapid.IntRange(0, total).Draw(t, "at")
+				c.Chunks = []int{k, total - k}
+			}
+		}
+	}
+	if rapid.IntRange(0, 3).Draw(t, "prior") == 0 {
+		c.Prior = rapid.IntRange(1, int(c.N)).Draw(t, "prior_n")
+		c.PriorEnds = rapid.SampledFrom([]string{"last", "rset"}).Draw(t, "prior_ends")
 	}
 	c.Reads = rapid.SampledFrom([][]int{{1}, {3}, {int(c.N)}, {int(c.N) + 1}, {4096}}).Draw(t, "reads")
 	return c
